@@ -194,6 +194,51 @@ def work(item):
                                                    {"raw": raw.decode(), "got": res}, replay={"foreign": [code, other, body, shape]})
                         part.states.add(report.fp([code, other, body, shape]))
                         part.nontrivial.add(report.fp([code, other, body, shape]))
+        elif kind == "unencodable":
+            # a reply whose text the server's encoding cannot represent (a name from storage or configuration), through
+            # the real response writer, a real control connection and the real client: the client must never be handed
+            # a complete reply - whatever arrives cannot be the text that was sent
+            from vf.rig import Rig
+            enc, cases = payload
+            for code, lines, mode in cases:
+                rig = Rig(tree={}, server_kwargs={"encoding": enc})
+                try:
+                    async def xrpl(connection, rest, code=code, lines=lines, mode=mode):
+                        connection.response(code, list(lines) if len(lines) > 1 else lines[0], mode)
+                        return True
+                    rig.server.commands_mapping["xrpl"] = xrpl
+                    w3, a3 = rig.world, rig.world.aioftp
+                    out = {}
+
+                    async def main():
+                        c = a3.Client(path_io_factory=a3.MemoryPathIO, encoding=enc)
+                        await c.connect("127.0.0.1", 2121)
+                        await c.login()
+                        try:
+                            rc, info = await c.command("XRPL", "xxx")
+                            out["reply"] = (str(rc), list(info))
+                        except (ConnectionError, a3.StatusCodeError, UnicodeError, EOFError) as exc:
+                            out["error"] = type(exc).__name__
+                        c.close()
+                    try:
+                        w3.run(main())
+                    except Hang:
+                        out["error"] = "hang"
+                    part.evaluations += 1
+                    kk = report.fp(["unencodable", enc, code, lines, mode])
+                    part.states.add(kk)
+                    part.nontrivial.add(kk)
+                    part.outcomes[report.fp([out.get("error")])] += 1
+                    if "reply" in out:
+                        part.violation({"kind": "unencodable-reply-delivered-as-something-else", "encoding": enc,
+                                        "lines": len(lines), "mode": "list" if mode else "plain"},
+                                       {"sent": [code, lines], "got": out["reply"]},
+                                       replay={"unencodable": [enc, code, list(lines), mode]})
+                    elif out.get("error") == "hang":
+                        part.violation({"kind": "client-hangs-on-unencodable-reply", "encoding": enc},
+                                       {"sent": [code, lines]}, replay={"unencodable": [enc, code, list(lines), mode]})
+                finally:
+                    rig.close()
         elif kind == "long":
             # long reply lines through a *real* client connection (its own StreamReader and limits), 8 KiB .. 60 KiB
             from vf.fakeserver import FakeServer
@@ -294,6 +339,17 @@ def build_items(tier):
             items.append(("pairs", (code, mode)))
     items.append(("foreign", [("250", "251"), ("211", "226"), ("150", "550")]))
     items.append(("latin1", None))
+    for enc, bad in (("latin-1", "Ω"), ("ascii", "é"), ("cp1251", "é")):
+        cases = []
+        for n in (1, 2, 3):
+            for pos in range(n):
+                for mode in (False, True):
+                    if mode and n < 2:
+                        continue
+                    lines = ["ok%d" % i for i in range(n)]
+                    lines[pos] = "na" + bad + "me"
+                    cases.append(("250", lines, mode))
+        items.append(("unencodable", (enc, cases)))
     for n in (1000, 8191, 8192, 8193, 16384, 40000, 60000):
         items.append(("long", [n]))
     return items
@@ -309,6 +365,8 @@ def run(tier, seed, t0):
               "line_counts": "1..5 (4 and 5 over reduced alphabets)" if tier == "quick" else "1..6", "modes": ["plain", "list"],
               "segmentations": "all single cuts, all double cuts for streams <= 24 bytes, byte-by-byte",
               "pairs": "reduced alphabet, second reply in 3 shapes",
+              "unencodable_replies": "latin-1 / ascii / cp1251 servers, 1-3 lines, the unrepresentable character on every line "
+                                     "position, plain and list mode, through the real response writer and a real client",
               "long_lines": "1000..60000 characters through a real client connection on SimNet (single, middle of a plain / list reply, PWD)", "masks": "all masks of length 0..3 over 0159xX?"}
     return report.finish(
         PID, tier, seed, "model_checking", part, t0,
@@ -323,5 +381,43 @@ def run(tier, seed, t0):
 
 def replay(path):
     data = json.loads(open(path).read())
-    print(json.dumps(data["detail"], indent=1, default=repr))
-    return 1
+    rp = data.get("replay") or {}
+    if "unencodable" in rp:
+        enc, code, lines, mode = rp["unencodable"]
+        part = work(("unencodable", (enc, [(code, lines, mode)])))
+    elif "single" in rp:
+        code, line = rp["single"]
+        global LINES
+        saved, LINES = LINES, [line]
+        try:
+            part = work(("single", [code]))
+        finally:
+            LINES = saved
+    elif "foreign" in rp:
+        code, other, body, shape = rp["foreign"]
+        part = work(("foreign", [(code, other)]))
+    else:
+        # multi / pair cases: re-run the exact decoding
+        import aioftp as a
+        w = World()
+        try:
+            server = a.Server()
+            if "multi" in rp:
+                code, lines, mode, cuts = rp["multi"]
+                raw = encode(w, server, code, list(lines), mode)
+                res = decode(w, a, raw, cuts, 1)
+                want = [(code, rstripped(expected_info(code, list(lines), mode)))]
+            elif "pair" in rp:
+                c1, l1, mode, c2, l2, cuts = rp["pair"]
+                raw = encode(w, server, c1, l1, mode) + encode(w, server, c2, l2, False)
+                res = decode(w, a, raw, cuts, 2)
+                want = [(c1, rstripped(expected_info(c1, l1, mode))), (c2, rstripped(expected_info(c2, l2, False)))]
+            else:
+                print(json.dumps(data.get("detail"), indent=1, default=repr))
+                return 1
+            print(json.dumps({"got": res, "want": want}, default=repr))
+            return 1 if [tuple(x) if isinstance(x, list) else x for x in res] != want else 0
+        finally:
+            w.close()
+    print(json.dumps([v["detail"] for v in part.violations], indent=1, default=repr))
+    return 1 if part.violations else 0
